@@ -144,11 +144,11 @@ def tmpdir():
     return _TMP
 
 
-def yaml_text(d):
+def yaml_text(d, flow=False):
     from ruamel.yaml import YAML
 
     y = YAML(typ="safe")
-    y.default_flow_style = False
+    y.default_flow_style = True if flow else False   # flow style: {a: {b: [1, 2]}} - valid YAML, not JSON (unquoted keys)
     buf = io.StringIO()
     y.dump(d, buf)
     text = buf.getvalue()
@@ -158,7 +158,7 @@ def yaml_text(d):
 
 
 def carriers_for(layout, tier):
-    cs = ["dict", "odict", "yaml", "json", "sio_yaml", "sio_json", "path_yaml_str", "path_yaml_Path", "path_json_str", "path_json_Path", "xr_global_yaml", "xr_global_json"]
+    cs = ["dict", "odict", "yaml", "yamlflow", "sio_yamlflow", "xr_global_yamlflow", "json", "sio_yaml", "sio_json", "path_yaml_str", "path_yaml_Path", "path_json_str", "path_json_Path", "xr_global_yaml", "xr_global_json"]
     if layout == "streams":
         cs.append("xr_vars")
     if tier == "thorough":
@@ -184,6 +184,14 @@ def render(d, carrier):
         return to_odict(d), None
     if carrier == "yaml":
         return yaml_text(d), None
+    if carrier == "yamlflow":
+        return "  " + yaml_text(d, flow=True), None    # (with leading blanks)
+    if carrier == "sio_yamlflow":
+        return io.StringIO(yaml_text(d, flow=True)), None
+    if carrier == "xr_global_yamlflow":
+        ds = xr.Dataset({"v1": ("t", np.arange(3.0))})
+        ds.attrs["ioos_qc_config"] = yaml_text(d, flow=True)
+        return ds, None
     if carrier == "json":
         return json.dumps(d), None
     if carrier == "sio_yaml":
